@@ -97,14 +97,18 @@ fn run_store(b: u64, kind: &str, sent: usize, arr: &[i64], seed: u64) -> Value {
     let c = sim.add_node(NodeOpts::client(private_ip(3), &boot));
     sim.run_for(2500);
     let extras: Option<Box<[dht::Node]>> = if sent > regular {
-        Some(
-            (regular..sent)
-                .map(|i| {
-                    let p = &net.peers()[i];
-                    v::node_with_token(Id::from(p.id), p.addr, &p.token())
-                })
-                .collect(),
-        )
+        // the token-less peer goes first (and, for odd run numbers, also in the middle) of the extra nodes: it must be
+        // skipped, and every other extra node must still be written to with its own token
+        let tl = &net.peers()[npeers - 1];
+        let mut v2: Vec<dht::Node> = vec![dht::Node::new(Id::from(tl.id), tl.addr)];
+        for i in regular..sent {
+            let p = &net.peers()[i];
+            v2.push(v::node_with_token(Id::from(p.id), p.addr, &p.token()));
+            if b % 2 == 1 && i == (regular + sent) / 2 {
+                v2.push(dht::Node::new(Id::from(tl.id), tl.addr));
+            }
+        }
+        Some(v2.into_boxed_slice())
     } else {
         None
     };
@@ -216,7 +220,7 @@ pub fn run(args: &Args) -> i32 {
     }
     if args.get("no-large").is_none() {
         // large replica sets through extra nodes
-        let sizes: &[usize] = if thorough { &[5, 6, 20, 255, 256, 257, 300, 511, 512, 600] } else { &[5, 20, 255, 256, 300] };
+        let sizes: &[usize] = if thorough { &[5, 6, 7, 20, 255, 256, 257, 300, 511, 512, 600] } else { &[5, 7, 20, 255, 256, 300] };
         for &n in sizes {
             for kind in ["imm", "mut"] {
                 for pat in ["all_ack", "one_ack_last", "one_ack_first", "none", "majority301", "minority301", "acks256", "ack_then_majority301"] {
